@@ -85,10 +85,10 @@ def ScanOK (lo hi : Nat) (c : Ctx) : Prop :=
 
 /-! ### basic heap facts -/
 
-theorem val_setVal_same (c : Ctx) (b : BodyId) (v : List Nat) (h : b < c.heap.length) : (c.setVal b v).val b = v := by
+theorem val_setVal_same (c : Ctx) (b : Nat) (v : List Nat) (h : b < c.heap.length) : (c.setVal b v).val b = v := by
   simp [Ctx.setVal, Ctx.val, h]
 
-theorem val_setVal_other (c : Ctx) (b b' : BodyId) (v : List Nat) (h : b ≠ b') : (c.setVal b v).val b' = c.val b' := by
+theorem val_setVal_other (c : Ctx) (b b' : Nat) (v : List Nat) (h : b ≠ b') : (c.setVal b v).val b' = c.val b' := by
   simp [Ctx.setVal, Ctx.val, List.getElem?_set_ne h]
 
 theorem finals_append (l1 l2 : List Ev) : finals (l1 ++ l2) = finals l1 ++ finals l2 := by
@@ -99,7 +99,7 @@ theorem finals_append (l1 l2 : List Ev) : finals (l1 ++ l2) = finals l1 ++ final
 def noSteal (o : Oracle) : Prop := ∀ lo hi, o.stolen lo hi = false
 
 /-- outcome of a task in final mode when nothing is stolen: it final-scans its whole range on `b` -/
-structure SeqRes (L lo hi : Nat) (b : BodyId) (hasSS : Bool) (c : Ctx) (r : R1) : Prop where
+structure SeqRes (L lo hi : Nat) (b : Nat) (hasSS : Bool) (c : Ctx) (r : R1) : Prop where
   ret : r.ret = .nil
   zombie : r.zombie = none
   sum : r.sum = (if hasSS then some b else none)
@@ -110,8 +110,8 @@ structure SeqRes (L lo hi : Nat) (b : BodyId) (hasSS : Bool) (c : Ctx) (r : R1) 
   log : ∃ evs, r.ctx.log = c.log ++ evs ∧ (∀ e, e ∈ evs → ∃ x y inc, e = Ev.fin b x y inc) ∧
         (c.val b = rng L lo → chain L lo (finals evs) hi)
 
-theorem finalScan_seq (L lo hi : Nat) (b : BodyId) (hasSS : Bool) (c : Ctx) (hlt : lo < hi) (hb : b < c.heap.length)
-    (z : Option BodyId) (hz : z = none) :
+theorem finalScan_seq (L lo hi : Nat) (b : Nat) (hasSS : Bool) (c : Ctx) (hlt : lo < hi) (hb : b < c.heap.length)
+    (z : Option Nat) (hz : z = none) :
     SeqRes L lo hi b hasSS c ⟨c.finalScan b lo hi, .nil, if hasSS then some b else none, z⟩ := by
   subst hz
   refine ⟨rfl, rfl, rfl, rfl, ?_, ?_, ?_, ?_⟩
@@ -132,7 +132,7 @@ theorem mid_bounds {g lo hi : Nat} (hg : 1 ≤ g) (h : g < hi - lo) : lo < mid l
   unfold mid; omega
 
 theorem scanTask_seq (g : Nat) (hg : 1 ≤ g) (o : Oracle) (ho : noSteal o) (L : Nat) :
-    ∀ (fuel lo hi : Nat) (b : BodyId) (hasSS isRight : Bool) (pls : Option BodyId) (c : Ctx),
+    ∀ (fuel lo hi : Nat) (b : Nat) (hasSS isRight : Bool) (pls : Option Nat) (c : Ctx),
       L ≤ lo → lo < hi → b < c.heap.length → (isRight = true → pls = some b) →
       SeqRes L lo hi b hasSS c (scanTask g o fuel lo hi b true hasSS isRight pls c) := by
   intro fuel
@@ -213,7 +213,7 @@ theorem scan_no_steal (g : Nat) (hg : 1 ≤ g) (o : Oracle) (ho : noSteal o) (lo
     simp only [e1]
     generalize hr : scanTask g o (hi - lo) lo hi 1 true false false none ((({ heap := [[]] } : Ctx).alloc 0).1.rjoin 1 0) = r at h
     obtain ⟨r1, r2, r3, r4, r5, r6, r7, ⟨evs, r8, r9, r10⟩⟩ := h
-    simp only [r1]
+    simp only [r1, STree.isNil, if_true]
     refine ⟨?_, ?_, ?_⟩
     · simp [Ctx.assign, Ctx.setVal, r4, herr]
     · have : (r.ctx.assign 0 1).val 0 = r.ctx.val 1 := by
